@@ -531,6 +531,9 @@ class Command:
                     self.curarg = curarg
                 if add:
                     self.arguments[curarg["name"]] = avalue
+                    # a parameter recorded for an earlier tag of this
+                    # slot does not belong to this one
+                    self.extra_arguments.pop(curarg["name"], None)
                 break
 
             pos += 1
